@@ -1252,7 +1252,10 @@ class SurrogatesDriver(Driver):
         return Surrogates
 
     def models(self, tier):
-        return [{"emb": None, "normalized": False}]
+        return [{"emb": None, "normalized": False},
+                # embedded from the start (the embedding is derived from the
+                # data as the caller supplied them)
+                {"emb": [2, 1], "normalized": False}]
 
     def construct(self, model):
         s = self.cls()(self.arr("original_data", SUR_DATA, float),
